@@ -196,6 +196,9 @@ func DHTPut(params DHTPutParams) (*DHTPutResult, error) {
 // it is up to the caller to determine whether they want to stop at the best peer
 // n is the number of candidate peers to consider at a time.
 func dhtIterate(nodes []NodeInfo, key []byte, n int, fn func(node NodeInfo) (newPeers []NodeInfo, cont bool)) {
+	if len(nodes) == 0 {
+		return
+	}
 	if n < 1 {
 		panic(n)
 	}
